@@ -569,6 +569,15 @@ pub fn install_panic_recorder() {
             } else {
                 String::new()
             };
+            // The harness stops a node by shutting its tokio runtime down (`shutdown_timeout`); a task
+            // that asks for a timer at that instant panics inside tokio ("A Tokio 1.x context was
+            // found, but it is being shutdown").  That is the stop procedure of the harness, not
+            // behaviour of the node: not recorded.
+            let runtime_shutdown = message.contains("is being shutdown") && location.contains("tokio-");
+            if runtime_shutdown {
+                prev(info);
+                return;
+            }
             if let Ok(mut g) = PANICS.lock() {
                 g.push(RecordedPanic {
                     thread,
